@@ -36,6 +36,7 @@ def pstep (m : FifoMon) (ts : List String) : FifoMon × String :=
   | ["sub", _], ["refused"] =>
     if m.cancelled then (m, "ok") else (m, "reject refused-live submit refused although the context is live")
   | ["sub", _], ["hang"] => (m, "reject writer-blocked submit did not complete")
+  | _, ["leak"] => (m, "reject goroutine-leak the pipe goroutine did not exit after its reader channel closed")
   | [r], [a] =>
     if r == "read" || r == "tryread" then
       if a == "closed" then (m, verdictStr m.sawClosed)
